@@ -1265,3 +1265,16 @@ Proof.
   - split; [exact r16_idx_b|]. split; [vm_compute; discriminate|]. split; [exact r16_file_ok|exact r16_theorem_applies].
   - split; [exact r560_idx_b|]. split; [vm_compute; discriminate|]. split; [apply std_okfn_ok|]. split; [exact r560_file_ok|]. split; [exact r560_blocks_ok|exact r560_theorem_applies].
 Qed.
+(* ... and the failure direction: r751 (C20 stream, four stanzas, globals, a shorthand, scans, comprehensions, stdlib calls; both recorded runs fail with DuplicateAttribute):
+   strict_fail_lazy_fail_run_one_real_partial applies to the record as emitted and excludes lazy success *)
+Example strict_fail_lazy_fail_real_case_nonvacuous :
+  run_idx_agreeb r751_run = true /\ lmatches_of (ri_smatches r751_run) <> lmatches_of (real_smatches r751_run) /\
+  call_graph_ext (the_call r751_tree (ri_tbl r751_run)) /\
+  file_ok std_okfn (normalize_file (ri_file r751_run)) (f_stanzas (normalize_file (ri_file r751_run))) (real_smatches r751_run) /\
+  (exists e, run_one r751_tree config0 None (with_lazy r751_run false) [] = Err e /\ root_cause e = EDuplicateAttribute /\ order_independent_error e) /\
+  (exists e, run_one r751_tree config0 None (with_lazy r751_run true) [] = Err e /\ root_cause e = EDuplicateAttribute) /\
+  match run_one r751_tree config0 None (with_lazy r751_run true) [] with Ok _ => False | Err _ | Panic _ | OutOfFuel => True end.
+Proof.
+  split; [exact r751_idx_b|]. split; [vm_compute; discriminate|]. split; [apply stdlib_call_graph_ext|]. split; [exact r751_file_ok|]. split; [exact r751_strict|].
+  split; [exact r751_lazy|exact r751_theorem_applies].
+Qed.
